@@ -1,10 +1,13 @@
 #!/bin/bash
-# Build the simulation harness test binary from /repo's current working tree.
+# Build the simulation harness test binary from the repository's current working tree
+# (/repo, or $VERIF_REPO for a scratch checkout with a seeded change).
 set -e
 export GOFLAGS=-mod=mod GOPROXY=off GOSUMDB=off GOTOOLCHAIN=local
 V="$(cd "$(dirname "$0")" && pwd)"
+R="${VERIF_REPO:-/repo}"
 mkdir -p "$V/.build"
 python3 "$V/tools/mkoverlay.py" "$V/.build/overlay" >/dev/null
 cd "$V/harness"
-cp /repo/go.sum go.sum
-/opt/veriftools/go1.26.8/bin/go test -c -vet=off -overlay "$V/.build/overlay/overlay.json" -o "$V/.build/harness.test" .
+sed "s|=> /repo|=> $R|" go.mod > "$V/.build/harness.mod"
+cp "$R/go.sum" "$V/.build/harness.sum"
+/opt/veriftools/go1.26.8/bin/go test -modfile="$V/.build/harness.mod" -c -vet=off -overlay "$V/.build/overlay/overlay.json" -o "$V/.build/harness.test" .
